@@ -96,3 +96,18 @@ TABLE['C09'] = {
     'level_text': 'Deductive proof that every public mutator of EnvVarDict (the overridden ones from their real source, the inherited ones from dict\'s library contract) preserves "changes applied to initial == current" for all maps and all keys, that __init__/from_json establish it, and that the lazily recomputed changes of a reloaded object are exactly the differences; the inherited |= defect this exposed was repaired (fix commit).',
     'level_note': 'Trusted: PyVC and its dict model, z3. Not covered deductively: Environment.save/load and the upgrade chain (bounded), toolchain replay.',
 }
+
+TABLE['C03'] = {
+    'modules': ['contracts.graph'],
+    'level': 'proof',
+    'assumptions': [
+        'Makefile._target_str / NinjaFile._output_str are abstracted as an uninterpreted function from the thing to its escaped text (their injectivity up to the escape is C04)',
+        'the invariant is proved at an arbitrary target text x (ghost constant); sets are updated pointwise',
+        'command_build is verified for implicit-dependency lists of length 0, 1, 2 and None (list concatenation is uniform in the length; not an induction)',
+    ],
+    'trusted_base': ['PyVC (pyvc/*.py) incl. dict/set model', 'z3 5.1.0'],
+    'not_covered': ['per-builtin emitters (make_compile, ninja_link, ...) listing every consumed file', 'multitarget_rule stamp files', 'Edge registration, BuildRuleHandler dispatch',
+                    'default-set bookkeeping (DefaultOutputs), test/install/alias targets', 'rebuild behaviour of make/ninja given the graph'],
+    'level_text': 'Deductive proof that Makefile.rule and NinjaFile.build never give a target text a second producing rule and record exactly the call\'s targets (for all target lists and all previous states), and that ninja command_build passes every given dependency (plus PHONY) to the single build statement it emits. Only these data-structure and emitter kernels of the property are carried; the per-builtin dependency lists and rebuild behaviour are not.',
+    'level_note': 'Trusted: PyVC, z3. Partial claim: duplicate-output rejection and command_build only; everything listed under not_covered is unverified.',
+}
